@@ -936,60 +936,50 @@ where
     // means that we can iteratively improve our knowledge of a token's minimum cost:
     // eventually we will reach a point where we can determine it definitively.
 
-    let mut costs = vec![0; usize::from(grm.rules_len())];
-    let mut done = vec![false; usize::from(grm.rules_len())];
+    // The scheme above relies on every cost strictly growing until it is fixed, which never
+    // happens for rules on a unit cycle (e.g. `A: B | 'y'; B: A;`): their incomplete cost stays
+    // at the complete cost forever. We therefore relax downwards instead: a rule's cost is
+    // unknown (`None`) until one of its productions only references rules of known cost, and
+    // is then lowered whenever a cheaper production is found. Costs only ever decrease and are
+    // bounded below by zero, so this reaches a fixed point for every grammar.
+    let mut costs: Vec<Option<u16>> = vec![None; usize::from(grm.rules_len())];
     loop {
-        let mut all_done = true;
-        for i in 0..done.len() {
-            if done[i] {
-                continue;
-            }
-            all_done = false;
-            let mut ls_cmplt = None; // lowest completed cost
-            let mut ls_noncmplt = None; // lowest non-completed cost
-
-            // The call to as_() is guaranteed safe because done.len() == grm.rules_len(), and
+        let mut changed = false;
+        for i in 0..costs.len() {
+            // The call to as_() is guaranteed safe because costs.len() == grm.rules_len(), and
             // we guarantee that grm.rules_len() can fit in StorageT.
             for pidx in grm.rule_to_prods(RIdx(i.as_())).iter() {
-                let mut c: u16 = 0; // production cost
-                let mut cmplt = true;
+                let mut c: Option<u16> = Some(0); // production cost, if known yet
                 for sym in grm.prod(*pidx) {
                     let sc = match *sym {
-                        Symbol::Token(tidx) => u16::from(token_costs[usize::from(tidx)]),
-                        Symbol::Rule(ridx) => {
-                            if !done[usize::from(ridx)] {
-                                cmplt = false;
-                            }
-                            costs[usize::from(ridx)]
-                        }
+                        Symbol::Token(tidx) => Some(u16::from(token_costs[usize::from(tidx)])),
+                        Symbol::Rule(ridx) => costs[usize::from(ridx)],
                     };
-                    c = c
-                        .checked_add(sc)
-                        .expect("Overflow occurred when calculating rule costs");
+                    c = match (c, sc) {
+                        (Some(c), Some(sc)) => Some(
+                            c.checked_add(sc)
+                                .expect("Overflow occurred when calculating rule costs"),
+                        ),
+                        _ => None,
+                    };
                 }
-                if cmplt && (ls_cmplt.is_none() || Some(c) < ls_cmplt) {
-                    ls_cmplt = Some(c);
-                } else if !cmplt && (ls_noncmplt.is_none() || Some(c) < ls_noncmplt) {
-                    ls_noncmplt = Some(c);
+                if let Some(c) = c
+                    && costs[i].is_none_or(|old| c < old)
+                {
+                    costs[i] = Some(c);
+                    changed = true;
                 }
-            }
-            if let Some(low_cmplt) = ls_cmplt
-                && (ls_noncmplt.is_none() || ls_cmplt < ls_noncmplt)
-            {
-                debug_assert!(low_cmplt >= costs[i]);
-                costs[i] = low_cmplt;
-                done[i] = true;
-            } else if let Some(ls_noncmplt) = ls_noncmplt {
-                debug_assert!(ls_noncmplt >= costs[i]);
-                costs[i] = ls_noncmplt;
             }
         }
-        if all_done {
-            debug_assert!(done.iter().all(|x| *x));
+        if !changed {
             break;
         }
     }
+    // A rule without a cost cannot derive any string of tokens: its cost is unbounded.
     costs
+        .into_iter()
+        .map(|c| c.expect("Overflow occurred when calculating rule costs"))
+        .collect()
 }
 
 /// Return the cost of the maximal string for each rule in this grammar (u32::max_val()
